@@ -27,7 +27,7 @@ ASSUMPTIONS = [
 
 PHRASES = ("Defaults to ", "defaults to ", "Default value is ", "Default: ")
 CORE_ALLOWED = ()
-FRONTIER_KNOBS = ("str_with_dot", "empty_str", "str_with_quote", "code_dot", "trailing_text", "col0", "bracket_code")
+FRONTIER_KNOBS = ("str_with_dot", "empty_str", "str_with_quote", "code_dot", "trailing_text")
 FLOORS = {"negative_control": 0.1, "remove=True": 0.25}
 
 
@@ -70,7 +70,7 @@ def positive(draw, knob=None):
         value = None
         typ = draw(st.sampled_from((None, "Optional[int]", "Optional[str]", "Optional[np.ndarray]")))
     else:
-        value = domain.code(draw(st.sampled_from(("stdout", "foo(5)", "1 + 2", "foo(1.5)"))))
+        value = domain.code(draw(st.sampled_from(("stdout", "foo(5)", "1 + 2", "foo(1.5)", "(1, 2)", "[1, 2]", "[]", "{'a': 1}", "(np, tf)"))))
         typ = draw(st.sampled_from((None, "np.ndarray", "Callable")))
     if knob == "str_with_dot":
         value, typ = draw(st.sampled_from(("a.b", "~/tensorflow_datasets", "model.h5"))), draw(st.sampled_from(("str", "Optional[str]")))
@@ -87,10 +87,10 @@ def positive(draw, knob=None):
         # prose that mentions the word without announcing a value; the real sentence must still be written and read
         prose = "%s %s" % (prose, draw(st.sampled_from(("by default", "the default one", "default behaviour", "non-default values"))))
     trailing = None
-    if knob == "trailing_text" or (knob == "bracket_code" and draw(st.booleans())):
+    if knob == "trailing_text":
         trailing = " ".join(draw(st.lists(st.sampled_from(domain.WORDS), min_size=2, max_size=4))).capitalize()
-    if knob == "col0":
-        prose = ""
+    if knob is None and draw(st.integers(0, 9)) == 0:
+        prose = ""  # the sentence starts at column 0
     return {
         "kind": "positive",
         "prose": prose,
